@@ -30,6 +30,7 @@ EXHAUSTIVE = {
               "mttkrp: every mode n, N<=4; contract: every ordered pair of equal-sized modes": "complete"},
     "thorough": {"ttv/ttm mode subsets N<=4": "complete", "one-hot basis sweep for shapes <= 12 cells (ttv, ttm, innerprod, contract, collapse, scale)": "complete"},
 }
+NPINT_ARGS = True     # a quarter of the cases pass their integer arguments as NumPy integers (core.Ctx.begin)
 WATCHDOG = {"quick": 900, "thorough": 3400}
 TOL = 1e-10
 
